@@ -32,6 +32,15 @@ Theorem C19_read_is_a_copy : forall ops c t,
               map_of_ctx h c <> Some m.
 Proof. exact read_is_a_copy. Qed.
 
+(* every other way of deriving a context (a value, a cancel function, a deadline, the fire-now marker) leaves the tags
+   alone: the derived context shows exactly what its parent shows *)
+Theorem C19_other_derivations_keep_tags : forall ops c,
+    let h := trun good th0 ops in
+    (exists x, zfind c (ctxs h) = Some x) ->
+    snd (tstep good h (TDerive c)) = Some (next_ctx h) /\
+    tags_of (fst (tstep good h (TDerive c))) (next_ctx h) = tags_of h c.
+Proof. exact derive_keeps_tags. Qed.
+
 (* the tags that travel: the context's, joined for calls by the selected context values (which win on a clash) *)
 Theorem C19_merge_lookup : forall cur add k,
     tm_get k (tm_merge cur add) = match tm_get k (rev add) with Some v => Some v | None => tm_get k cur end.
@@ -70,3 +79,4 @@ Print Assumptions C19_generated_ok.
 Print Assumptions C19_add_in_place_refuted.
 Print Assumptions C19_read_aliases_refuted.
 Print Assumptions C19_each_message_decodes_its_tags_into_its_own_map.
+Print Assumptions C19_other_derivations_keep_tags.
